@@ -1,5 +1,5 @@
 (* C17 — IP wrapper frames by length; TCP transport returns whole APDUs for any chunking. *)
-From Dlms Require Import Base WrapperModel WrapperProofs.
+From Dlms Require Import Base WrapperModel WrapperSpec WrapperProofs.
 
 (* the header is four big-endian 16-bit fields: version, source port, destination port, length *)
 Theorem C17_header_layout : forall src dst ln ver, src < 65536 -> dst < 65536 -> ln < 65536 -> ver < 65536 ->
